@@ -157,7 +157,9 @@ FOCUSED = {
              + ["get_function_x"] * 5 + ["get_as_type_x"] * 3 + ["get_function_ex", "get_product"]),
             ("binary-grid", 4, None, ["get_array", "get_ptr_to_member", "get_forall", "get_tor", "get_qualified", "get_function",
                                 "get_function_e", "get_product", "get_sum", "get_pointer", "mk_phantom"])],
-    "C04": [("atoms-grid", 4, "a|b|int|default|x1|this", ["get_symbol", "get_literal", "make_literal", "get_template_id", "get_identifier", "mk_expr_list",
+    "C04": [("names-many", 2, "a|f|b|i|h|g|e|c|d|m|k|z|q|w|y|n|p|r|t|v|x1|foo|bar|zz",
+             ["get_identifier", "get_operator", "get_literal", "get_linkage", "get_calling_convention", "get_logogram", "get_identifier_s"]),
+            ("atoms-grid", 4, "a|b|int|default|x1|this", ["get_symbol", "get_literal", "make_literal", "get_template_id", "get_identifier", "mk_expr_list",
                                "get_this", "get_label", "get_suffix", "get_conversion", "get_pointer", "mk_phantom"])],
     "C09": [("symbol-grid", 3, "a|b|this", ["get_symbol", "get_symbol", "get_label", "get_this", "get_identifier", "get_pointer",
                                             "get_literal", "mk_class"])],
@@ -221,12 +223,12 @@ def run(pid, tier, seed):
     for k, noise in enumerate([0, 40] if q else [0, 40, 400]):
         tp = os.path.join(trace_dir, "%s-%s-%d-%d.ndjson" % (pid, tier, seed, k))
         vlib.record_trace(exe, ["record", "--seed", seed * 1000 + k, "--runs", nruns, "--len", length,
-                                "--noise", noise, "--ops", ",".join(RECORD_OPS[pid])], tp)
+                                "--noise", noise, "--ops", ",".join(RECORD_OPS[pid])], tp, timeout=300)
         tr_specs.append(tp)
     for (fname, focus, wordset, fops) in FOCUSED.get(pid, []):
         tp = os.path.join(trace_dir, "%s-%s-%d-%s.ndjson" % (pid, tier, seed, fname))
         vlib.record_trace(exe, ["record", "--seed", seed * 1000 + 77, "--runs", 3 if q else 12, "--len", 400 if q else 600,
-                                "--noise", 0, "--focus", focus, "--ops", ",".join(fops)] + (["--wordset", wordset] if wordset else []), tp)
+                                "--noise", 0, "--focus", focus, "--ops", ",".join(fops)] + (["--wordset", wordset] if wordset else []), tp, timeout=300)
         tr_specs.append(tp)
 
     def run_trace(tp):
@@ -298,7 +300,8 @@ def run(pid, tier, seed):
                 or (pid == "C04" and ev.get("op") in NAME_OPS) \
                 or (pid == "C02" and ev.get("op") in TYPE_OPS + NAME_OPS) \
                 or (pid == "C09" and (type_changed(ev, prefix) or atom_type_wrong(ev))) \
-                or ev.get("op") in ("mk_class", "mk_phantom", "mk_expr_list", "mk_template", "get_decltype", "get_auto")
+                or ev.get("op") in ("mk_class", "mk_phantom", "mk_expr_list", "mk_template", "get_decltype", "get_auto") \
+                or ev.get("op") in ("Crash", "Sanitizer")        # the library died or hung in a history of this property's requests
             if not ok_mine:
                 foreign += 1
                 continue
@@ -312,7 +315,7 @@ def run(pid, tier, seed):
                 os.path.basename(tp), lineno, line[:400]), path))
         if len(samples) < 5:
             with open(tp) as fh:
-                head = [json.loads(next(fh)) for _ in range(4)]
+                head = [json.loads(x) for x in fh.read().splitlines()[:4]] or [{}]
             samples.append({"kind": "recorded trace excerpt (%s)" % os.path.basename(tp), "events": head[1:]})
 
     nontrivial = sorted(c for c in classes if "|const|" not in c or True)
